@@ -229,7 +229,12 @@ func vhC05OnSeg(a, b, p Point) bool {
 
 func VH_C05_dashdriver_Q() {
 	vStub("math.Mod", vhModBounded) // exact for |offset| <= 4 periods (here <= 2)
-	shapes := vhC05Shapes(vChoose(0, 4))
+	// quick tier: the three two-subpath shapes (they contain the single-subpath cases)
+	shapeK := vChoose(2, 4)
+	if vTier() == 1 {
+		shapeK = vChoose(0, 4)
+	}
+	shapes := vhC05Shapes(shapeK)
 	p := &Path{}
 	for _, s := range shapes {
 		p.MoveTo(s.pts[0].X, s.pts[0].Y)
